@@ -109,6 +109,8 @@ def anneal[T](
     best_solution, best_obj = solution, obj
     initial_temp = temperature
 
+    iteration = 0  # stays 0 when max_iter is 0 (the loop body never runs)
+
     for iteration in range(1, max_iter + 1):
         temperature = schedule(initial_temp, iteration, max_iter)
 
